@@ -51,7 +51,7 @@ def rints(rng, shape, cplx, lo=-3, hi=3):
 
 def describe_data_key(sym, dtype, td):
     return (sym, dtype, tuple(td['s']), repr(td['m']), td.get('n', 0), repr(td.get('drop')), bool(td.get('diag')),
-            td.get('id'))
+            td.get('id'))   # dtype is the effective one (td override or config default)
 
 
 class Built:
@@ -66,7 +66,7 @@ class Built:
 
 def build(cfg, sym, td, seed, generic=False):
     mods = G.moduli(sym)
-    dtype = cfg.default_dtype
+    dtype = td.get('dtype') or cfg.default_dtype
     cplx = dtype.startswith('complex')
     sig = tuple(td['s'])
     rank = len(sig)
